@@ -25,6 +25,7 @@ RECURSIVE WInls(_)
 WInl(i) ==
     CASE i[1] = "r"    -> << <<"t", i[2]>> >>
       [] i[1] \in {"tab", "br"} -> IF "Docx!TabBreakDropped" \in WalkDev THEN <<>> ELSE WS
+      [] i[1] = "sp"   -> WS                                       \* a w:t that holds a blank
       [] i[1] \in {"a", "ins", "isdt"} -> WInls(i[2])          \* generic recursion into children
       [] i[1] = "del"  -> <<>>                                   \* runs carry w:delText, never w:t
       [] i[1] \in {"fn", "cm"} -> <<>>                           \* reference runs have no w:t
